@@ -25,6 +25,26 @@ import (
 // at most 6 distinct sites) after which it is declared livelocked.
 var SpinLimit = 3000
 
+// quietMutex is a mutex whose operations the race detector does not see as synchronisation: the
+// simulator's own tables must not order the tasks' memory accesses by happens-before, or a fully
+// serialised schedule would hide every data race of the code under test (DESIGN.md §4).  The data it
+// guards is only touched from //go:norace functions.
+type quietMutex struct{ m sync.Mutex }
+
+//go:norace
+func (q *quietMutex) Lock() {
+	raceDisable()
+	q.m.Lock()
+	raceEnable()
+}
+
+//go:norace
+func (q *quietMutex) Unlock() {
+	raceDisable()
+	q.m.Unlock()
+	raceEnable()
+}
+
 // Options configure one run.
 type Options struct {
 	MaxSteps   int
@@ -116,8 +136,9 @@ type Task struct {
 }
 
 type lockState struct {
+	key     interface{}
 	writer  *Task
-	readers map[*Task]int
+	readers []*Task // one entry per read-lock held
 }
 
 // Sim is one simulated run.
@@ -125,10 +146,11 @@ type Sim struct {
 	T     *testing.T
 	Tape  *Tape
 	opts  Options
-	mu    sync.Mutex
-	tasks map[int64]*Task
+	mu    quietMutex
 	all   []*Task
-	locks map[interface{}]*lockState
+	locks []*lockState // (no maps in tables shared between goroutines: map operations carry race-detector hooks of their own)
+	probeLog []string
+	faultLog []string
 	wake  chan struct{}
 	last  *Task
 	step  int
@@ -161,6 +183,12 @@ type Sim struct {
 }
 
 var current atomic.Pointer[Sim]
+
+var lastResult atomic.Pointer[Result]
+
+// LastResult returns the result of the most recent Execute (for callers whose Execute goroutine was
+// ended by runtime.Goexit before it could return the value).
+func LastResult() *Result { return lastResult.Load() }
 
 var schedSeq atomic.Int64 // incremented before every quiescence wait
 var inWait atomic.Bool   // true while the scheduler waits for quiescence
@@ -207,6 +235,7 @@ func startWatchdog() {
 	})
 }
 
+//go:norace
 func goid() int64 {
 	var buf [64]byte
 	n := runtime.Stack(buf[:], false)
@@ -228,12 +257,12 @@ func Execute(t *testing.T, tape *Tape, opts Options, scenario func(s *Sim)) (res
 	startWatchdog()
 	s := &Sim{
 		T: t, Tape: tape, opts: opts,
-		tasks: map[int64]*Task{}, locks: map[interface{}]*lockState{},
 		res:  &Result{Probes: map[string]int{}, Faults: map[string]int{}},
 		Vars: map[string]interface{}{},
 		hash: 1469598103934665603,
 	}
 	res = s.res
+	lastResult.Store(res)
 	installHooks()
 	current.Store(s)
 	defer current.Store(nil)
@@ -245,6 +274,12 @@ func Execute(t *testing.T, tape *Tape, opts Options, scenario func(s *Sim)) (res
 				res.Notes = append(res.Notes, "harness panic: "+msg+"\n"+string(debug.Stack()))
 				res.Capped = "harness-panic"
 			}
+		}
+		for _, n := range s.probeLog {
+			res.Probes[n]++
+		}
+		for _, n := range s.faultLog {
+			res.Faults[n]++
 		}
 		res.Digest = s.hash
 		res.Tape = tape.Rec
@@ -266,32 +301,46 @@ func Execute(t *testing.T, tape *Tape, opts Options, scenario func(s *Sim)) (res
 	return res
 }
 
+// StepNow returns the number of scheduler steps taken so far.
+//
+//go:norace
+func (s *Sim) StepNow() int {
+	s.mu.Lock()
+	defer s.mu.Unlock()
+	return s.step
+}
+
 // Now is the simulated time since the start of the run.
+//go:norace
 func (s *Sim) Now() time.Duration { return time.Since(s.start) }
 
+//go:norace
 func (s *Sim) signalWake() {
+	raceDisable()
 	select {
 	case s.wake <- struct{}{}:
 	default:
 	}
+	raceEnable()
 }
 
+//go:norace
 func (s *Sim) currentTask() *Task {
 	id := goid()
 	s.mu.Lock()
-	t := s.tasks[id]
+	t := s.taskByGid(id)
 	if t == nil {
 		s.anon++
 		t = &Task{Name: fmt.Sprintf("anon#%d", s.anon), gid: id, resume: make(chan decision), children: map[string]int{}}
-		s.tasks[id] = t
 		s.all = append(s.all, t)
-		s.res.Probes["sim.anon_task"]++
+		s.probeLog = append(s.probeLog, "sim.anon_task")
 	}
 	s.mu.Unlock()
 	return t
 }
 
 // park blocks the calling task until the scheduler releases it.
+//go:norace
 func (s *Sim) park(t *Task, op *parkOp) int {
 	if s.dead.Load() {
 		return 0
@@ -300,7 +349,9 @@ func (s *Sim) park(t *Task, op *parkOp) int {
 	t.parked = op
 	s.mu.Unlock()
 	s.signalWake()
+	raceDisable()
 	d := <-t.resume
+	raceEnable()
 	if d.kill {
 		s.mu.Lock()
 		t.exited = true
@@ -311,12 +362,14 @@ func (s *Sim) park(t *Task, op *parkOp) int {
 }
 
 // Yield is an interleaving point of the calling task.
+//go:norace
 func (s *Sim) Yield(site string) {
 	s.park(s.currentTask(), &parkOp{kind: opYield, site: site})
 }
 
 // Point is an interleaving point at which the scheduler also draws a weighted decision
 // (index 0 = nothing unusual).
+//go:norace
 func (s *Sim) Point(site string, weights []int) int {
 	return s.park(s.currentTask(), &parkOp{kind: opPoint, site: site, weights: weights})
 }
@@ -324,6 +377,7 @@ func (s *Sim) Point(site string, weights []int) int {
 // IOPoint is an interleaving point that belongs to simulated I/O (network or pipe).  I/O points are
 // numbered in execution order; an armed fault (Options.FaultAt) fires when its index comes up, in
 // the task that is about to perform the I/O, before the I/O happens.
+//go:norace
 func (s *Sim) IOPoint(site string, weights []int, ref interface{}) int {
 	d := s.park(s.currentTask(), &parkOp{kind: opPoint, site: site, weights: weights})
 	s.mu.Lock()
@@ -337,7 +391,7 @@ func (s *Sim) IOPoint(site string, weights []int, ref interface{}) int {
 		s.res.FaultFired = true
 		s.FaultTime = s.Now()
 		s.FaultSite = site
-		s.res.Faults["enum."+s.opts.FaultAt.Kind]++
+		s.faultLog = append(s.faultLog, "enum."+s.opts.FaultAt.Kind)
 	}
 	cb := s.OnFault
 	s.mu.Unlock()
@@ -348,6 +402,7 @@ func (s *Sim) IOPoint(site string, weights []int, ref interface{}) int {
 }
 
 // FaultFired reports whether the armed fault of this run has fired.
+//go:norace
 func (s *Sim) FaultFired() bool {
 	s.mu.Lock()
 	defer s.mu.Unlock()
@@ -355,9 +410,11 @@ func (s *Sim) FaultFired() bool {
 }
 
 // ArmedFault returns the fault armed for this run (nil if none).
+//go:norace
 func (s *Sim) ArmedFault() *FaultSpec { return s.opts.FaultAt }
 
 // Sleep lets simulated time pass for the calling task.
+//go:norace
 func (s *Sim) Sleep(d time.Duration) {
 	if d > 0 {
 		time.Sleep(d)
@@ -366,10 +423,12 @@ func (s *Sim) Sleep(d time.Duration) {
 }
 
 // Go starts fn as a named task.  The task parks before its first instruction.
+//go:norace
 func (s *Sim) Go(name string, fn func()) *Task {
 	return s.spawn(name, false, fn)
 }
 
+//go:norace
 func (s *Sim) spawn(name string, lib bool, fn func()) *Task {
 	t := &Task{Name: name, resume: make(chan decision), children: map[string]int{}, lib: lib}
 	s.mu.Lock()
@@ -381,16 +440,16 @@ func (s *Sim) spawn(name string, lib bool, fn func()) *Task {
 		id := goid()
 		s.mu.Lock()
 		t.gid = id
-		s.tasks[id] = t
 		s.mu.Unlock()
+		raceDisable()
 		close(started)
+		raceEnable()
 		defer func() {
 			r := recover()
 			s.mu.Lock()
 			t.exited = true
 			t.parked = nil
 			s.exitSeq++
-			delete(s.tasks, id)
 			if r != nil {
 				st := string(debug.Stack())
 				s.res.LibEvents = append(s.res.LibEvents, fmt.Sprintf("panic in %s [task %s]: %v", TopLibFrame(st), t.Name, r))
@@ -402,13 +461,17 @@ func (s *Sim) spawn(name string, lib bool, fn func()) *Task {
 			s.mu.Unlock()
 			s.signalWake()
 		}()
+		raceDisable()
 		d := <-t.resume
+		raceEnable()
 		if d.kill {
 			return
 		}
 		fn()
 	}()
+	raceDisable()
 	<-started
+	raceEnable()
 	return t
 }
 
@@ -435,6 +498,7 @@ func trimStack(st string) string {
 }
 
 // TaskExited reports whether the task has finished.
+//go:norace
 func (s *Sim) TaskExited(t *Task) bool {
 	s.mu.Lock()
 	defer s.mu.Unlock()
@@ -443,6 +507,7 @@ func (s *Sim) TaskExited(t *Task) bool {
 
 // WaitTasks parks the caller until all the given tasks have exited or the deadline of simulated
 // time passes; it returns the tasks still alive.
+//go:norace
 func (s *Sim) WaitTasks(max time.Duration, tasks ...*Task) []*Task {
 	deadline := s.Now() + max
 	for {
@@ -463,6 +528,7 @@ func (s *Sim) WaitTasks(max time.Duration, tasks ...*Task) []*Task {
 
 // idleWait parks the caller with the lowest priority: it is released only when nothing else is
 // enabled and either max simulated time has passed or (onExit) some task has exited meanwhile.
+//go:norace
 func (s *Sim) idleWait(max time.Duration, onExit bool) {
 	t := s.currentTask()
 	s.mu.Lock()
@@ -476,6 +542,7 @@ func (s *Sim) idleWait(max time.Duration, onExit bool) {
 }
 
 // Settle lets the system run until nothing is enabled and simulated time has advanced by d.
+//go:norace
 func (s *Sim) Settle(d time.Duration) {
 	deadline := s.Now() + d
 	for s.Now() < deadline {
@@ -484,9 +551,11 @@ func (s *Sim) Settle(d time.Duration) {
 }
 
 // Quiesce lets the system run until nothing is enabled (no simulated time needs to pass).
+//go:norace
 func (s *Sim) Quiesce() { s.idleWait(0, false) }
 
 // Violate records an oracle verdict.
+//go:norace
 func (s *Sim) Violate(sig, format string, args ...interface{}) {
 	s.mu.Lock()
 	defer s.mu.Unlock()
@@ -499,20 +568,23 @@ func (s *Sim) Violate(sig, format string, args ...interface{}) {
 }
 
 // Probe counts that a branch of interest was reached.
+//go:norace
 func (s *Sim) Probe(name string) {
 	s.mu.Lock()
-	s.res.Probes[name]++
+	s.probeLog = append(s.probeLog, name)
 	s.mu.Unlock()
 }
 
 // Fault counts an injected fault.
+//go:norace
 func (s *Sim) Fault(name string) {
 	s.mu.Lock()
-	s.res.Faults[name]++
+	s.faultLog = append(s.faultLog, name)
 	s.mu.Unlock()
 }
 
 // Note attaches free text to the result (shown in replay files).
+//go:norace
 func (s *Sim) Note(format string, args ...interface{}) {
 	s.mu.Lock()
 	s.res.Notes = append(s.res.Notes, fmt.Sprintf(format, args...))
@@ -520,12 +592,14 @@ func (s *Sim) Note(format string, args ...interface{}) {
 }
 
 // LibEvents returns the library-level incidents (panics, aborted handlers) recorded so far.
+//go:norace
 func (s *Sim) LibEvents() []string {
 	s.mu.Lock()
 	defer s.mu.Unlock()
 	return append([]string(nil), s.res.LibEvents...)
 }
 
+//go:norace
 func (s *Sim) addLibEvent(e string) {
 	s.mu.Lock()
 	s.res.LibEvents = append(s.res.LibEvents, e)
@@ -534,6 +608,7 @@ func (s *Sim) addLibEvent(e string) {
 
 // LiveLibTasks returns the names of library goroutines (started by a `go` statement of the
 // library) that have not exited.
+//go:norace
 func (s *Sim) LiveLibTasks() []string {
 	s.mu.Lock()
 	defer s.mu.Unlock()
@@ -548,6 +623,7 @@ func (s *Sim) LiveLibTasks() []string {
 }
 
 // LockBlocked returns tasks parked on a lock that is held.
+//go:norace
 func (s *Sim) LockBlocked() []string {
 	s.mu.Lock()
 	defer s.mu.Unlock()
@@ -560,8 +636,9 @@ func (s *Sim) LockBlocked() []string {
 	return out
 }
 
+//go:norace
 func (s *Sim) lockFree(t *Task, op *parkOp) bool {
-	ls := s.locks[op.mu]
+	ls := s.lockOf(op.mu)
 	if ls == nil {
 		return true
 	}
@@ -571,6 +648,7 @@ func (s *Sim) lockFree(t *Task, op *parkOp) bool {
 	return ls.writer == nil
 }
 
+//go:norace
 func (s *Sim) enabled(now time.Duration) (en []*Task, idle []*Task, nextWake time.Duration) {
 	nextWake = -1
 	for _, t := range s.all {
@@ -597,6 +675,7 @@ func (s *Sim) enabled(now time.Duration) (en []*Task, idle []*Task, nextWake tim
 	return
 }
 
+//go:norace
 func (s *Sim) record(t *Task, op *parkOp, dec int) {
 	h := fnv.New64a()
 	h.Write([]byte(t.Name))
@@ -610,7 +689,9 @@ func (s *Sim) record(t *Task, op *parkOp, dec int) {
 }
 
 // schedule is the scheduler loop; it runs on the bubble's root goroutine.
+//go:norace
 func (s *Sim) schedule() {
+	raceDisable() // the scheduler goroutine never orders anybody (never re-enabled: goroutine-local)
 	defer s.teardown()
 	for {
 		schedSeq.Add(1)
@@ -698,15 +779,27 @@ func (s *Sim) schedule() {
 		case opSelect:
 			dec = s.Tape.Draw(fact(op.n))
 		case opLock:
-			ls := s.locks[op.mu]
+			ls := s.lockOf(op.mu)
 			if ls == nil {
-				ls = &lockState{readers: map[*Task]int{}}
-				s.locks[op.mu] = ls
+				ls = &lockState{key: op.mu}
+				s.locks = append(s.locks, ls)
 			}
 			if op.mode == 'L' {
 				ls.writer = t
 			} else {
-				ls.readers[t]++
+				// Go's RWMutex blocks new readers once a writer waits: a task that read-locks a mutex
+				// it already read-holds deadlocks if a writer arrives in between.  The model grants the
+				// lock (the writer is parked in the simulator, not in the real mutex) but records it.
+				for _, r := range ls.readers {
+					if r == t {
+						for _, o := range s.all {
+							if o != t && !o.exited && o.parked != nil && o.parked.kind == opLock && o.parked.mode == 'L' && o.parked.mu == op.mu {
+								s.res.LibEvents = append(s.res.LibEvents, fmt.Sprintf("recursive read lock at %s while a writer waits at %s [task %s]: deadlock with sync.RWMutex", op.site, o.parked.site, t.Name))
+							}
+						}
+					}
+				}
+				ls.readers = append(ls.readers, t)
 			}
 			t.holding++
 		}
@@ -751,6 +844,7 @@ func (s *Sim) schedule() {
 // teardown ends the run.  Parked tasks are abandoned (they stay durably blocked on their resume
 // channel; the bubble is discarded): killing them would run deferred functions that may take real
 // mutexes still held by other abandoned tasks.
+//go:norace
 func (s *Sim) teardown() {
 	s.dead.Store(true)
 	s.Net.abandon()
@@ -791,6 +885,7 @@ func permFrom(code, n int) []int {
 
 // ---- hooks ------------------------------------------------------------------------------------
 
+//go:norace
 func installHooks() {
 	zzsimhook.YieldFn = func(site string) {
 		if s := current.Load(); s != nil && !s.dead.Load() {
@@ -832,30 +927,59 @@ func installHooks() {
 	}
 }
 
+//go:norace
 func (s *Sim) unlock(m interface{}, mode byte) {
 	id := goid()
 	s.mu.Lock()
 	defer s.mu.Unlock()
-	ls := s.locks[m]
+	ls := s.lockOf(m)
 	if ls == nil {
 		return
 	}
-	t := s.tasks[id]
+	t := s.taskByGid(id)
 	if mode == 'L' {
 		ls.writer = nil
-	} else if t != nil {
-		if ls.readers[t] > 1 {
-			ls.readers[t]--
-		} else {
-			delete(ls.readers, t)
-		}
 	} else {
-		for k := range ls.readers {
-			delete(ls.readers, k)
-			break
+		idx := -1
+		for i, r := range ls.readers {
+			if r == t {
+				idx = i
+				break
+			}
+		}
+		if idx < 0 && len(ls.readers) > 0 {
+			idx = 0 // unlocked by another goroutine than the one that locked: legal for RWMutex
+		}
+		if idx >= 0 {
+			ls.readers = append(ls.readers[:idx:idx], ls.readers[idx+1:]...)
 		}
 	}
 	if ls.writer == nil && len(ls.readers) == 0 {
-		delete(s.locks, m)
+		for i, x := range s.locks {
+			if x == ls {
+				s.locks = append(s.locks[:i:i], s.locks[i+1:]...)
+				break
+			}
+		}
 	}
+}
+
+//go:norace
+func (s *Sim) lockOf(m interface{}) *lockState {
+	for _, ls := range s.locks {
+		if ls.key == m {
+			return ls
+		}
+	}
+	return nil
+}
+
+//go:norace
+func (s *Sim) taskByGid(id int64) *Task {
+	for i := len(s.all) - 1; i >= 0; i-- {
+		if t := s.all[i]; t.gid == id && !t.exited {
+			return t
+		}
+	}
+	return nil
 }
